@@ -100,6 +100,15 @@ MatchStruct == l <= Len(Rec) /\ l' = l + 1 /\ Explain(FALSE)
 LoggedWF == IF "post" \in DOMAIN Ev
             THEN WF(Ev.post.owner, Ev.post.parent, Ev.post.kids, Ev.post.root) ELSE TRUE
 
+\* a rejected clone whose copies do not carry the UniqueId PROPERTY exactly where their originals do (a copy may get
+\* another id - that is C12's business - but not lose the property or gain one: "matches the original in ... property
+\* values", C11)
+ClonePresenceDiffers ==
+    /\ Ev.op = "clone" /\ "post" \in DOMAIN Ev
+    /\ LET order == CloneOrder(Ev.rs)
+           new   == nextRef..(nextRef + Len(order) - 1)
+       IN \E x \in new \cap Refs : (uid[order[x - nextRef + 1]] = NoUid) # (Ev.post.uid[x] = NoUid)
+
 NextReset(k) ==
     LET later == {j \in (k + 1)..Len(Rec) : Rec[j].op = "reset"} IN
     IF later = {} THEN Len(Rec) + 1 ELSE CHOOSE j \in later : \A i \in later : j <= i
@@ -108,7 +117,7 @@ Skip ==
     /\ l <= Len(Rec)
     /\ ~ENABLED Match
     /\ PrintT(<<"MISMATCH", l, Ev.ep, Ev.op,
-                 IF ENABLED MatchStruct THEN "uid" ELSE "struct",
+                 IF ENABLED MatchStruct THEN (IF ClonePresenceDiffers THEN "uid-presence" ELSE "uid") ELSE "struct",
                  IF LoggedWF THEN "wf" ELSE "illformed">>)
     /\ l' = NextReset(l)
     /\ UNCHANGED vars
